@@ -33,6 +33,10 @@ class Obligation:
         self.name, self.pc, self.goal, self.line, self.kind, self.func = name, list(pc), goal, line, kind, func
 
 
+class _Filtered(Exception):
+    pass
+
+
 class NeedsFork(Exception):
     """an inlined helper (a function without contract) returned along several paths, or along none: only a statement
     whose whole value is that call can continue on each of them"""
@@ -1152,15 +1156,43 @@ class Exec:
         self.binder_marks.append(([j], mark))
         try:
             if gen.ifs:
+                # the one filtered form that is modelled: [x for x in <list of ints> if x]  (drop the zeros, keep order)
+                if len(gen.ifs) == 1 and isinstance(gen.ifs[0], ast.Name) and isinstance(gen.target, ast.Name) \
+                        and isinstance(node.elt, ast.Name) and gen.ifs[0].id == gen.target.id == node.elt.id \
+                        and isinstance(it, VSeq) and isinstance(it.et, TInt) and not self.binder_marks[:-1]:
+                    self.filtered = it
+                    self.lib_used.add("[x for x in a if x] on a list of ints: a fresh list with the zeros dropped and the order "
+                                      "kept (sizes, counts of every non-zero value, and the zero-padded case); validated on "
+                                      "random lists by CPython on every run")
+                    raise _Filtered()
                 raise Unsupported("filtered comprehension")
             v = self.eval(node.elt, st)
             v = self.deref(st, v)
             et = self.type_of(v)
             terms = self.flat.pack(et, v)
-        finally:
+        except _Filtered:
+            self.binder_marks.pop()
+            del st.pc[mark:]
+            st.env = saved_env
+            from . import tables
+            from .lib_models import named_array
+            src = named_array(self, st, self.filtered)      # (the name specification text gets for the same list)
+            farr = z3.Const(fresh_name("nzf"), z3.ArraySort(z3.IntSort(), z3.IntSort()))
+            m = z3.Int(fresh_name("nzm"))
+            fet = src.et
+            st.pc += tables.fact_filter_nonzero(src.comps[0], src.ln, farr, m)
+            q = z3.Int("q%nzt")
+            if fet.lo is not None and fet.hi is not None:
+                st.pc.append(z3.ForAll([q], z3.And(farr[q] >= fet.lo, farr[q] <= fet.hi)))
+            return VSeq([farr], m, fet, "list")
+        except BaseException:
             self.binder_marks.pop()
             self.close_binder(st, mark, [j], rng)
             st.env = saved_env
+            raise
+        self.binder_marks.pop()
+        self.close_binder(st, mark, [j], rng)
+        st.env = saved_env
         comps = [z3.Lambda([j], t) for t in terms]
         return VSeq(comps, n, et, "list")
 
@@ -1352,6 +1384,10 @@ def _const_eval(node, repo, module):
         if node.id in repo.imports.get(module, {}):
             m, n = repo.imports[module][node.id]
             return _const_eval(repo.consts[m][n], repo, m)
+        # a name used in a class body: an earlier class-level assignment of a class of this module
+        for cs in repo.classes.values():
+            if cs.module == module and node.id in cs.consts:
+                return _const_eval(cs.consts[node.id], repo, module)
     raise ValueError("not a constant")
 
 
